@@ -19,7 +19,7 @@ use crate::fsmodel::Ev;
 use crate::proc::{err_path, run_worker, Script, ShimMode};
 use crate::seq::Cfg;
 
-pub const C11_RULE: &str = "race plans: 2-6 contenders (each a thread of the harness or a separate process), start offsets 0-2000 us after a common barrier, hold times 0-20 ms, on a fresh or a populated directory (un-checkpointed WAL tail, so a loser that got as far as loading the index would visibly checkpoint). Oracle (1): every open returns Ok or exactly AlreadyOpened; the CLOCK_MONOTONIC intervals [after open returned, before drop] of the successful opens are pairwise disjoint (recorded intervals lie inside the true holding intervals, so overlap means two live handles). (2) with an idle owner alive, a losing open traced by the LD_PRELOAD shim performs no successful mutating filesystem call under the root except opening LOCK, and the directory is byte-for-byte identical before/after. (3) while a clone or an OrphanStats of the owner lives, open fails; after the last one is dropped, or the owner process is killed with SIGKILL, the next open succeeds and shows the model state. non-trivial = plan in which >=2 open calls overlapped in time (measured), or a kill / clone / traced-loser scenario; distinct by plan hash";
+pub const C11_RULE: &str = "race plans: 2-6 contenders (each a thread of the harness or a separate process), start offsets 0-2000 us after a common barrier, hold times 0-20 ms, on a fresh or a populated directory (un-checkpointed WAL tail, so a loser that got as far as loading the index would visibly checkpoint). some contenders pass a different num_ops_per_wal. Oracle (1): every open returns Ok or exactly AlreadyOpened (a contender whose num_ops_per_wal differs from the recorded one may also be refused by the settings check; a winner always has the recorded value); the CLOCK_MONOTONIC intervals [after open returned, before drop] of the successful opens are pairwise disjoint (recorded intervals lie inside the true holding intervals, so overlap means two live handles). (2) with an idle owner alive, a losing open traced by the LD_PRELOAD shim performs no successful mutating filesystem call under the root except opening LOCK, and the directory is byte-for-byte identical before/after. (3) while a clone or an OrphanStats of the owner lives, open fails; after the last one is dropped, or the owner process is killed with SIGKILL, the next open succeeds and shows the model state. non-trivial = plan in which >=2 open calls overlapped in time (measured), or a kill / clone / traced-loser scenario; distinct by plan hash";
 
 #[derive(Clone, Debug, Serialize, Deserialize)]
 pub enum Scenario {
@@ -35,12 +35,33 @@ pub struct Plan {
     pub scenario: Scenario,
     /// (is_process, start offset in us, hold in ms)
     pub contenders: Vec<(bool, u16, u8)>,
+    /// contenders (by index) that pass a different num_ops_per_wal (7 instead of 100)
+    #[serde(default)]
+    pub alt_n: Vec<bool>,
+}
+
+/// The harness is multi-threaded and creates processes. Between fork and exec a child holds
+/// duplicates of every descriptor of the harness — including LOCK files of stores that harness
+/// threads have open — and keeps their flock alive until its exec. To keep that artefact out of the
+/// experiment, process creation (write side) never overlaps with a harness thread holding a store
+/// of this check open (read side). `Command::spawn` returns only after the child has exec'ed.
+static FORK_GATE: std::sync::RwLock<()> = std::sync::RwLock::new(());
+
+fn gate_read() -> std::sync::RwLockReadGuard<'static, ()> {
+    FORK_GATE.read().unwrap_or_else(|e| e.into_inner())
+}
+fn gate_write() -> std::sync::RwLockWriteGuard<'static, ()> {
+    FORK_GATE.write().unwrap_or_else(|e| e.into_inner())
 }
 
 fn cfg() -> Config {
+    cfg_with(100)
+}
+
+fn cfg_with(n: u64) -> Config {
     Config {
         sync_mode: SyncMode::Sync,
-        num_ops_per_wal: NonZeroU64::new(100).unwrap(),
+        num_ops_per_wal: NonZeroU64::new(n).unwrap(),
         pre_create_cas_dirs: false,
         scan_orphans_on_startup: true,
         verify_blob_integrity: false,
@@ -76,12 +97,14 @@ pub struct Probe {
     pub t1: u64,
     pub t2: u64,
     pub keys: Vec<String>,
+    #[serde(default)]
+    pub n: u64,
 }
 
-fn probe(root: &Path, start_at: u64, hold_ms: u64) -> Probe {
+fn probe(root: &Path, start_at: u64, hold_ms: u64, n: u64) -> Probe {
     wait_until(start_at);
     let t0 = now_ns();
-    let r = Cas::<String>::open(root, cfg());
+    let r = Cas::<String>::open(root, cfg_with(n));
     let t1 = now_ns();
     match r {
         Ok(cas) => {
@@ -89,9 +112,9 @@ fn probe(root: &Path, start_at: u64, hold_ms: u64) -> Probe {
             std::thread::sleep(Duration::from_millis(hold_ms));
             let t2 = now_ns();
             drop(cas);
-            Probe { ok: true, err: String::new(), t0, t1, t2, keys }
+            Probe { ok: true, err: String::new(), t0, t1, t2, keys, n }
         }
-        Err(e) => Probe { ok: false, err: err_path(&e), t0, t1, t2: t1, keys: vec![] },
+        Err(e) => Probe { ok: false, err: err_path(&e), t0, t1, t2: t1, keys: vec![], n },
     }
 }
 
@@ -106,7 +129,8 @@ pub fn lockprobe_main(args: &[String]) -> i32 {
     let root = PathBuf::from(&args[0]);
     let start_at: u64 = args[1].parse().unwrap_or(0);
     let hold: u64 = args[2].parse().unwrap_or(0);
-    let p = probe(&root, start_at, hold);
+    let n: u64 = args.get(4).and_then(|x| x.parse().ok()).unwrap_or(100);
+    let p = probe(&root, start_at, hold, n);
     std::fs::write(&args[3], serde_json::to_vec(&p).unwrap()).expect("harness: write probe result");
     0
 }
@@ -135,6 +159,7 @@ fn open_free(db: &Path, with_stats: bool) -> Result<(Cas<String>, Option<cassadi
 /// descriptor of that LOCK file which a concurrent fork could keep alive.
 fn populate(db: &Path) -> R<BTreeMap<String, [u8; 32]>> {
     let exe = std::env::current_exe().expect("harness: current_exe");
+    let _gate = gate_write();
     let st = std::process::Command::new(exe).arg("lockprobe").arg("populate").arg(db).stdin(std::process::Stdio::null()).stdout(std::process::Stdio::null()).stderr(std::process::Stdio::null()).status().expect("harness: spawn populate");
     if !st.success() {
         fail!("open-err", "populating a fresh directory failed: {st:?}");
@@ -172,13 +197,19 @@ fn check_final(db: &Path, model: &BTreeMap<String, [u8; 32]>, what: &str) -> R<(
 }
 
 fn spawn_probe(db: &Path, out: &Path, start_at: u64, hold: u64) -> std::process::Child {
+    spawn_probe_n(db, out, start_at, hold, 100)
+}
+
+fn spawn_probe_n(db: &Path, out: &Path, start_at: u64, hold: u64, n: u64) -> std::process::Child {
     let exe = std::env::current_exe().expect("harness: current_exe");
+    let _gate = gate_write();
     std::process::Command::new(exe)
         .arg("lockprobe")
         .arg(db)
         .arg(start_at.to_string())
         .arg(hold.to_string())
         .arg(out)
+        .arg(n.to_string())
         .stdin(std::process::Stdio::null())
         .stdout(std::process::Stdio::null())
         .stderr(std::process::Stdio::null())
@@ -199,13 +230,18 @@ fn c11_run(plan: &Plan) -> R<CaseMeta> {
             let mut procs = Vec::new();
             for (i, (is_proc, off, hold)) in plan.contenders.iter().enumerate() {
                 let start = barrier + *off as u64 * 1000;
+                let n = if plan.alt_n.get(i).copied().unwrap_or(false) { 7 } else { 100 };
                 if *is_proc {
                     let out = scratch.path.join(format!("probe{i}.json"));
-                    procs.push((spawn_probe(&db, &out, start, *hold as u64), out));
+                    procs.push((spawn_probe_n(&db, &out, start, *hold as u64, n), out));
                 } else {
                     let dbc = db.clone();
                     let hold = *hold as u64;
-                    threads.push(std::thread::spawn(move || probe(&dbc, start, hold)));
+                    threads.push(std::thread::spawn(move || {
+                        wait_until(start);
+                        let _gate = gate_read();
+                        probe(&dbc, 0, hold, n)
+                    }));
                 }
             }
             let mut probes: Vec<Probe> = Vec::new();
@@ -220,9 +256,16 @@ fn c11_run(plan: &Plan) -> R<CaseMeta> {
                 let p: Probe = serde_json::from_slice(&std::fs::read(&out).expect("harness: probe out")).expect("harness: probe json");
                 probes.push(p);
             }
+            // the segment size persisted at creation never changes: contenders that pass another value
+            // may also be refused by the settings check; contenders that pass it must win or see AlreadyOpened
+            let persisted_n: u64 = std::fs::read(db.join("db_settings.json")).ok().and_then(|b| serde_json::from_slice::<serde_json::Value>(&b).ok()).and_then(|v| v["num_ops_per_wal"].as_u64()).unwrap_or(0);
             for p in &probes {
-                if !p.ok && p.err != "AlreadyOpened" {
-                    fail!(format!("exclusive/wrong-error/{}", p.err), "a losing open failed with {} instead of AlreadyOpened", p.err);
+                if p.ok && p.n != persisted_n {
+                    fail!("exclusive/settings-changed-under-owner", "an open with num_ops_per_wal={} succeeded, but the directory ends up recording {persisted_n}: a losing open rewrote the settings of a live owner", p.n);
+                }
+                let mismatch_ok = p.n != persisted_n && p.err.starts_with("Settings.ValidationFailed");
+                if !p.ok && p.err != "AlreadyOpened" && !mismatch_ok {
+                    fail!(format!("exclusive/wrong-error/{}", p.err), "a losing open (num_ops_per_wal={}, directory records {persisted_n}) failed with {} instead of AlreadyOpened", p.n, p.err);
                 }
                 if p.ok && plan.populated {
                     let want: Vec<String> = model.iter().map(|(k, h)| format!("{k}={}", &hexs(h)[..8])).collect();
@@ -258,10 +301,27 @@ fn c11_run(plan: &Plan) -> R<CaseMeta> {
                 m.class("open_calls_overlapped");
                 m.nontrivial.push(id);
             }
-            check_final(&db, &model, "after the race")?;
+            if plan.alt_n.iter().any(|a| *a) {
+                m.class("race_with_mixed_settings");
+            }
+            if persisted_n == 100 || plan.populated {
+                let _gate = gate_read();
+                check_final(&db, &model, "after the race")?;
+            } else {
+                let _gate = gate_read();
+                match Cas::<String>::open(&db, cfg_with(persisted_n.max(1))) {
+                    Ok(_) => {}
+                    Err(e) => fail!(format!("exclusive/open-after-release-fails/{}", err_path(&e)), "after the race: open with the recorded num_ops_per_wal={persisted_n} fails: {e:?}"),
+                }
+            }
         }
         Scenario::IdleOwnerLoser => {
             crate::proc::ensure_shim();
+            {
+                let _gate = gate_write();
+                crate::proc::ensure_server();
+            }
+            let _gate = gate_read();
             let (owner, _) = open_free(&db, false).map_err(|e| Fail::new("open-err", format!("{e:?}")))?;
             let before = snapshot_tree(&db);
             let work = scratch.path.join("work");
@@ -299,6 +359,7 @@ fn c11_run(plan: &Plan) -> R<CaseMeta> {
             m.nontrivial.push(id);
         }
         Scenario::CloneOutlives { orphan_stats } => {
+            let _gate = gate_read();
             let (owner, stats) = open_free(&db, true).map_err(|e| Fail::new("open-err", format!("{e:?}")))?;
             let clone = owner.clone();
             let expect_busy = |what: &str| -> R<()> {
@@ -327,6 +388,7 @@ fn c11_run(plan: &Plan) -> R<CaseMeta> {
         Scenario::KillOwner => {
             let out = scratch.path.join("owner.json");
             let mut child = spawn_probe(&db, &out, 0, 60_000);
+            let _gate = gate_read();
             // wait until the owner holds the directory: a second open must fail
             let mut held = false;
             for _ in 0..2000 {
@@ -376,14 +438,15 @@ fn c11_run(plan: &Plan) -> R<CaseMeta> {
 }
 
 pub fn run_c11(ctx: &Ctx, acc: &Mutex<Acc>) -> Option<Violation> {
-    let cases = ctx.tier.scale(40, 8);
+    let cases = ctx.tier.scale(25, 8);
     let strat = || {
         (
             any::<bool>(),
             prop_oneof![6 => Just(Scenario::Race), 2 => Just(Scenario::IdleOwnerLoser), 2 => any::<bool>().prop_map(|o| Scenario::CloneOutlives { orphan_stats: o }), 1 => Just(Scenario::KillOwner)],
             vec((prop::bool::weighted(0.4), prop_oneof![3 => 0u16..50, 2 => 0u16..2000], 0u8..20), 2..6),
+            vec(prop::bool::weighted(0.3), 6),
         )
-            .prop_map(|(populated, scenario, contenders)| Plan { populated, scenario, contenders })
+            .prop_map(|(populated, scenario, contenders, alt_n)| Plan { populated, scenario, contenders, alt_n })
     };
     campaign(ctx, acc, "race-plans", "C11", cases, 20, |_| strat(), c11_run)
 }
